@@ -11,7 +11,7 @@ ASSUMPTIONS = [
     "configuration error = any exception other than AssertionError raised by the offending call",
     "whether a one-element list counts as a 'batch' subject, and whether an object list given before any subject is "
     "rejected at the call or at assert_applies, is left open (Builders!LRuleStep 'either')",
-    "the accepted definition is observed through architecture[layer] and str(architecture)",
+    "the accepted definition is observed through architecture[layer], str(architecture) and architecture.layer_mapping",
 ]
 
 
@@ -61,6 +61,10 @@ def run(ctx):
     if str_bad:
         fails = fails + [{"prop": "C16", "clause": "str-differs-from-getitem", "detail": str_bad[0]["str"],
                           "event": str_bad[0], "spec": None, "episode_events": None}]
+    map_bad = [e for ep in episodes for e in ep if e["k"] == "show" and not e.get("mapping_consistent", True)]
+    if map_bad:
+        fails = fails + [{"prop": "C16", "clause": "layer-mapping-differs-from-getitem", "detail": map_bad[0]["str"],
+                          "event": map_bad[0], "spec": None, "episode_events": None}]
     if not rejected or not accepted or not shows:
         raise tlc.MachineryError("vacuous run")
     states = sum(m.distinct for m in mcs)
